@@ -14,12 +14,27 @@ Theorem C14_push_code_shape : forall dst body n,
   push_code dst body n = dst ++ map (rename_line n) body ++ [Lbl (".endofinline" ++ string_of_N n)%string].
 Proof. intros. unfold push_code, append_code. rewrite <- app_assoc. reflexivity. Qed.
 
-(** renaming keeps every instruction except the operand (and protection) of branches and jumps *)
+(** renaming keeps every instruction except the operand text of branches and jumps *)
 Theorem C14_rename_keeps_instructions : forall n i,
   renames_operand (i_mn i) = false -> rename_line n (Ins i) = Ins i.
 Proof. intros n i H. unfold rename_line. rewrite H. reflexivity. Qed.
 
 From CC Require Import Model.CbSpec Model.WfCode Proofs.InlineFacts.
+
+(** ... of which it keeps the mnemonic, the [protected] flag, the cycles and the size: only the
+    operand text gets the suffix *)
+Theorem C14_rename_ins_shape : forall n i,
+  exists i', rename_line n (Ins i) = Ins i' /\
+             i_mn i' = i_mn i /\ i_prot i' = i_prot i /\
+             i_cycles i' = i_cycles i /\ i_alt i' = i_alt i /\ i_bytes i' = i_bytes i /\
+             i_op i' = if renames_operand (i_mn i) then suffix_of n (i_op i) else i_op i.
+Proof. exact rename_ins_shape. Qed.
+
+(** the expansion has exactly the protected instructions and inline-assembly lines of the caller
+    followed by those of the body (renamed), in order *)
+Theorem C14_push_code_marked : forall dst body n,
+  marked (push_code dst body n) = marked dst ++ map (rename_line n) (marked body).
+Proof. exact push_code_marked. Qed.
 
 (** labels of the inlined body are exactly the suffixed labels; its branch targets likewise *)
 Theorem C14_rename_labels : forall n c, all_labels (map (rename_line n) c) = map (suffix_of n) (all_labels c).
@@ -49,14 +64,34 @@ Theorem C14_runb_is_run : forall cfg prog inl_sem ext_call fuel fname c pc stack
   = out_of (runb cfg prog inl_sem ext_call fuel fname c pc stack (length stack) s tr cy).
 Proof. exact run_runb. Qed.
 
-(** renaming the local labels of a body injectively never changes its execution (same state, same
-    cycles, same outcome kind; traces equal once the events of branches/jumps, whose protection
-    the renaming clears, are erased); exactly equal when no branch of the body is protected *)
+(** renaming the local labels of a body injectively never changes its execution: same state, same
+    cycles, same outcome kind, and the same trace event for event ([outcome_sim R]: traces related
+    pointwise by [R]) except that the event of a protected branch/jump of the body carries the
+    renamed operand text ([ev_ren r e e']: [e' = e], or [e = EvI m raw] of a branch/jump and
+    [e' = EvI m (r raw)]); the renaming keeps the protection of every instruction *)
 Theorem C14_rename_invariant : forall cfg prog inl_sem ext_call r c, inj_on r c ->
   forall fuel fname pc stack s tr cy,
-  outcome_sim keep_nonjump (run cfg prog inl_sem ext_call fuel fname c pc stack s tr cy)
-                           (run cfg prog inl_sem ext_call fuel fname (map (rename_sline r) c) pc stack s tr cy).
+  outcome_sim (ev_ren r) (run cfg prog inl_sem ext_call fuel fname c pc stack s tr cy)
+                         (run cfg prog inl_sem ext_call fuel fname (map (rename_sline r) c) pc stack s tr cy).
 Proof. exact run_rename. Qed.
+
+(** hence the traces are equal once the operand text of the branch/jump events is erased
+    ([same_erased t t' := map erase_jump_raw t = map erase_jump_raw t']) ... *)
+Theorem C14_rename_invariant_erased : forall cfg prog inl_sem ext_call r c, inj_on r c ->
+  forall fuel fname pc stack s tr cy,
+  outcome_rel same_erased (run cfg prog inl_sem ext_call fuel fname c pc stack s tr cy)
+                          (run cfg prog inl_sem ext_call fuel fname (map (rename_sline r) c) pc stack s tr cy).
+Proof. exact run_rename_erased. Qed.
+
+(** ... and (the former statement) once the branch/jump events are removed altogether
+    ([same_nonjump t t' := filter keep_nonjump t = filter keep_nonjump t']) *)
+Theorem C14_rename_invariant_weak : forall cfg prog inl_sem ext_call r c, inj_on r c ->
+  forall fuel fname pc stack s tr cy,
+  outcome_rel same_nonjump (run cfg prog inl_sem ext_call fuel fname c pc stack s tr cy)
+                           (run cfg prog inl_sem ext_call fuel fname (map (rename_sline r) c) pc stack s tr cy).
+Proof. exact run_rename_weak. Qed.
+
+(** exactly equal when no branch of the body is protected *)
 
 Theorem C14_rename_invariant_exact : forall cfg prog inl_sem ext_call r c, inj_on r c -> unprot_jumps c ->
   forall fuel fname pc stack s tr cy,
@@ -64,7 +99,7 @@ Theorem C14_rename_invariant_exact : forall cfg prog inl_sem ext_call r c, inj_o
   = run cfg prog inl_sem ext_call fuel fname c pc stack s tr cy.
 Proof. exact run_rename_eq. Qed.
 
-(** the model's renaming is that renaming *)
+(** the model's renaming is that renaming (protected flags included) *)
 Theorem C14_model_rename : forall n c sc, slines_of c = Some sc -> jump_ops_nonempty c ->
   slines_of (map (rename_line n) c) = Some (map (rename_sline (suffix_of n)) sc).
 Proof. exact slines_of_rename. Qed.
@@ -80,7 +115,9 @@ Theorem C14_embedding : forall cfg prog inl_sem ext_call fname0 pre body post ba
 Proof. exact embed_run. Qed.
 
 (** the expansion [push_code dst body n], entered at [length dst], behaves like the body followed by
-    its exit label run on its own, for every state, fuel, caller stack and continuation [post] *)
+    its exit label run on its own, for every state, fuel, caller stack and continuation [post];
+    traces: event for event the same, up to the suffixed operand text in the events of the body's
+    protected branches/jumps *)
 Theorem C14_expansion_behaves_like_body : forall cfg prog inl_sem ext_call (dst body : code) (n : N) sd sb,
   slines_of dst = Some sd -> slines_of body = Some sb -> jump_ops_nonempty body ->
   (forall t, In t (local_targets body) -> In t (all_labels body) \/ t = ".endof"%string) ->
@@ -89,5 +126,26 @@ Theorem C14_expansion_behaves_like_body : forall cfg prog inl_sem ext_call (dst 
   slines_of (push_code dst body n) = Some (sd ++ blk') /\
   nth_error (sd ++ blk') (length sd + length sb) = Some (SLbl (endof_label n)) /\
   length blk' = S (length sb) /\
-  forall post, block_spec cfg prog inl_sem ext_call keep_nonjump sd blk' post (sb ++ [SLbl ".endof"%string]).
+  forall post, block_spec cfg prog inl_sem ext_call (tsim (ev_ren (suffix_of n))) sd blk' post
+                          (sb ++ [SLbl ".endof"%string]).
 Proof. exact push_code_run. Qed.
+
+(** ... in particular with traces equal once the operand text of branch/jump events is erased *)
+Theorem C14_expansion_behaves_like_body_erased : forall cfg prog inl_sem ext_call (dst body : code) (n : N) sd sb,
+  slines_of dst = Some sd -> slines_of body = Some sb -> jump_ops_nonempty body ->
+  (forall t, In t (local_targets body) -> In t (all_labels body) \/ t = ".endof"%string) ->
+  (forall l, In l (all_labels dst) -> forall l0, l <> suffix_of n l0) ->
+  forall post, block_spec cfg prog inl_sem ext_call same_erased sd
+                          (map (rename_sline (suffix_of n)) (sb ++ [SLbl ".endof"%string])) post
+                          (sb ++ [SLbl ".endof"%string]).
+Proof. exact push_code_run_erased. Qed.
+
+(** ... and exactly equal when no branch/jump of the body is protected *)
+Theorem C14_expansion_behaves_like_body_exact : forall cfg prog inl_sem ext_call (dst body : code) (n : N) sd sb,
+  slines_of dst = Some sd -> slines_of body = Some sb -> jump_ops_nonempty body -> unprot_jumps sb ->
+  (forall t, In t (local_targets body) -> In t (all_labels body) \/ t = ".endof"%string) ->
+  (forall l, In l (all_labels dst) -> forall l0, l <> suffix_of n l0) ->
+  forall post, block_spec_eq cfg prog inl_sem ext_call sd
+                             (map (rename_sline (suffix_of n)) (sb ++ [SLbl ".endof"%string])) post
+                             (sb ++ [SLbl ".endof"%string]).
+Proof. exact push_code_run_eq. Qed.
